@@ -255,11 +255,24 @@ pub fn judge_c04(cx: &DeliveryCtx, out: &mut RunOut) {
                 // If that is accepted while this in-window delivery is refused, the only thing that
                 // differs is the server time.
                 if let (Some(t0), Ok(req)) = (cx.detail.instant, cx.wire.to_request()) {
+                    let mut explained = false;
                     if t0 != cx.now_ns {
                         let twin = libi::validate_control(req, cx.node, t0, cx.accounts, cx.script, 0);
                         out.probe("clock_twin_compared");
                         if twin.is_ok() {
+                            explained = true;
                             out.violate("C04", "inside-window-clock-alone-never-refuses", format!("t−now = {} ns is inside the window and the library refuses with {}, but accepts the identical request when the server clock equals the request instant; {}", cx.msg.auth.instant_ns - cx.now_ns, cx.out.short(), ctx_line(cx)));
+                        }
+                    }
+                    // "the decision depends only on the instant, not on its textual form": the text
+                    // twin — the same request stamped with the same instant in basic form with Z
+                    // (signed anew, since the date may be a signed value), clock at that instant.
+                    if !explained {
+                        if let Some(twin) = text_twin(cx, t0) {
+                            out.probe("text_twin_compared");
+                            if twin.is_ok() {
+                                out.violate("C04", "decision-independent-of-date-text", format!("date {:?} denotes an instant inside the window and the library refuses with {}, but accepts the same request when that instant is written {:?}; {}", cx.msg.auth.date_text, cx.out.short(), refm::compact_utc(t0.div_euclid(refm::NS) * refm::NS), ctx_line(cx)));
+                            }
                         }
                     }
                 }
@@ -267,6 +280,35 @@ pub fn judge_c04(cx: &DeliveryCtx, out: &mut RunOut) {
         }
         _ => {}
     }
+}
+
+/// The delivered message re-stamped with the same instant (whole seconds) in basic form with Z,
+/// signed anew and validated with the server clock at that instant. None when the date already
+/// has that form.
+fn text_twin(cx: &DeliveryCtx, t0: i128) -> Option<ValOut> {
+    let t2 = t0.div_euclid(refm::NS) * refm::NS;
+    let text = refm::compact_utc(t2);
+    if cx.msg.auth.date_text == text {
+        return None;
+    }
+    let mut m = cx.msg.clone();
+    m.auth.instant_ns = t2;
+    m.auth.date_text = text.clone();
+    if m.auth.carrier == Carrier::Header {
+        let pos = m.logical.headers.iter().position(|(n, _)| n == "x-amz-date").or(m.logical.headers.iter().position(|(n, _)| n == "date"))?;
+        m.logical.headers[pos].1 = text.into_bytes();
+    }
+    let secret = libi::keystore_lookup(cx.accounts, &m.auth.access_key, m.auth.token.as_deref(), &Answer::Normal).ok()?.1.to_string();
+    sign(&m.logical, &mut m.auth, &m.quirks, &secret);
+    let mut t = crate::tape::Tape::replay(vec![]);
+    let w = render(&m, &mut t, &RenderOpts {
+        mask: NOISE_ALL,
+        noise: 0,
+        s3: cx.node.cfg.s3,
+        permute_pairs: false,
+    });
+    let req = w.to_request().ok()?;
+    Some(libi::validate_control(req, cx.node, t2, cx.accounts, &libi::ProvScript::default(), 0))
 }
 
 /// C05: mandatory signed headers.
@@ -362,11 +404,12 @@ pub fn judge_c15(cx: &DeliveryCtx, out: &mut RunOut) {
         if !ret.body.is_empty() {
             bad.push(format!("folded request returned a non-empty body of {} bytes", ret.body.len()));
         }
-        // returned query = merged URL + body pairs (X-Amz-Signature aside), as a multiset
+        // returned query = exactly the authenticated merged URL + body pairs, as a multiset
         match refm::rpairs(ret.parts.uri.query().unwrap_or("").as_bytes()) {
             Some(mut got) => {
                 let mut want = cx.detail.merged_pairs.clone().unwrap_or_default();
-                got.retain(|(k, _)| k != b"X-Amz-Signature");
+                // the signature parameter is the one parameter that is not authenticated: it is not
+                // among the parameters handed back
                 want.retain(|(k, _)| k != b"X-Amz-Signature");
                 got.sort();
                 want.sort();
